@@ -104,6 +104,7 @@ func guardsInN(w *load.World, f *ssa.Function, depth int) []guard {
 
 func Valid(w *load.World, c *core.Collector) {
 	props := []string{"C18"}
+	queryBlocksValidated(w, c)
 	// V1: the request body is read in one place only
 	nBody := 0
 	for _, f := range w.Fns {
@@ -931,4 +932,111 @@ func onlyServesDecodeValid(w *load.World, f *ssa.Function, depth int) bool {
 		}
 	}
 	return sites > 0
+}
+
+// queryBlocksValidated: a query has no type tag — which option block applies is only known
+// once the property's index type is looked up in the schema, later. Query.Validate therefore
+// validates every block that is present: on every successful way through it, for every option
+// block X that it validates at all, the test "X != nil" that guards X.Validate() was passed.
+// (A switch over the blocks validates the first one present and lets the others through.)
+func queryBlocksValidated(w *load.World, c *core.Collector) {
+	props := []string{"C18"}
+	f := findFn(w, "(models.Query).Validate")
+	if f == nil {
+		c.Add("VALID", "anchor:Query.Validate", core.Undecided, "", "models.Query.Validate not found", props...)
+		return
+	}
+	// tests of a payload pointer whose not-nil side calls Validate on that payload
+	f = homeOf(f, func(g *ssa.Function) bool { return len(queryBlockTests(g)) >= 3 })
+	tests := queryBlockTests(f)
+	var names []string
+	for n := range tests {
+		names = append(names, n)
+	}
+	sort.Strings(names)
+	if len(names) < 5 {
+		c.Add("VALID", "anchor:query-blocks", core.Undecided, w.Position(f.Pos()), fmt.Sprintf("found %d option blocks that Query.Validate validates, expected at least 5", len(names)), props...)
+	}
+	for _, n := range names {
+		// a successful return reached without going through any of the tests of this block
+		var banned []ssax.Edge
+		for _, tb := range tests[n] {
+			for i := range tb.Succs {
+				banned = append(banned, ssax.Edge{From: tb, Succ: i})
+			}
+		}
+		bad := ""
+		for _, ex := range successExits(f) {
+			if reachableWithoutEdges(f, banned, ex.In.Block()) {
+				isTest := false
+				for _, tb := range tests[n] {
+					if tb == ex.In.Block() {
+						isTest = true
+					}
+				}
+				if !isTest {
+					bad = w.At(ex.In)
+				}
+			}
+		}
+		key := "query-block-validated:" + n
+		if bad != "" {
+			c.Add("VALID", key, core.Violation, bad, fmt.Sprintf("a query can pass validation without its %s block having been looked at (another block was present and validated instead): invalid options reach the index that the property really has", n), props...)
+		} else {
+			c.Add("VALID", key, core.OK, w.Position(f.Pos()), "", props...)
+		}
+	}
+}
+
+func derefOnce(v ssa.Value) ssa.Value {
+	if ld, ok := v.(*ssa.UnOp); ok && ld.Op == token.MUL {
+		// the receiver of a value-receiver method is the loaded struct: its address is the payload pointer
+		return ld.X
+	}
+	return v
+}
+
+func queryBlockTests(f *ssa.Function) map[string][]*ssa.BasicBlock {
+	tests := map[string][]*ssa.BasicBlock{}
+	for _, b := range f.Blocks {
+		ifi, ok := b.Instrs[len(b.Instrs)-1].(*ssa.If)
+		if !ok {
+			continue
+		}
+		bo, neg, ok := condBinOp(ifi.Cond, 0)
+		if !ok || (bo.Op != token.EQL && bo.Op != token.NEQ) || !(ssax.IsNilConst(bo.X) || ssax.IsNilConst(bo.Y)) {
+			continue
+		}
+		other := bo.X
+		if ssax.IsNilConst(bo.X) {
+			other = bo.Y
+		}
+		owner, st, idx, ok := payloadLoad(other)
+		_ = owner
+		if !ok {
+			continue
+		}
+		nonNil := 0
+		if (bo.Op == token.EQL) != neg {
+			nonNil = 1
+		}
+		name := st.Field(idx).Name()
+		// a Validate call on this payload that runs only on the not-nil edge
+		for _, vb := range f.Blocks {
+			for _, in := range vb.Instrs {
+				call, ok := in.(*ssa.Call)
+				if !ok || call.Call.StaticCallee() == nil || call.Call.StaticCallee().Name() != "Validate" || len(call.Call.Args) == 0 {
+					continue
+				}
+				_, st2, idx2, ok := payloadLoad(derefOnce(call.Call.Args[0]))
+				if !ok || st2 != st || idx2 != idx {
+					continue
+				}
+				if ssax.OnlyViaEdge(b, nonNil, vb) {
+					tests[name] = append(tests[name], b)
+				}
+			}
+		}
+	}
+	return tests
 }
